@@ -267,6 +267,7 @@ def thorough(ctx):
 def mutants():
     from ..selftest import TextMutant as T
     return [
+        T("boolean-any-element", "serializer.py", "                        (k not in booleanAttributes.get(name, tuple()) and\n                         k not in booleanAttributes.get(\"\", tuple())):", "                        not any(k in v for v in booleanAttributes.values()):", "Q5"),
         T("legacy-class-no-quote", REL, "_quoteAttributeLegacy = re.compile(\"[\" + _quoteAttributeSpecChars +", "_quoteAttributeLegacy = re.compile(\"[\" + \"=<>`\" +", "Q2"),
         T("amp-after-quote-choice", REL, "                        v = v.replace(\"&\", \"&amp;\")\n                        if self.escape_lt_in_attrs:",
           "                        if self.escape_lt_in_attrs:", "Q4"),
